@@ -3,3 +3,6 @@ import DEvo.Graph.Topo
 import DEvo.Graph.Ordered
 import DEvo.Graph.Batches
 import DEvo.Props.C09
+import DEvo.Sig.Basic
+import DEvo.Mut.Basic
+import DEvo.Mut.Env
